@@ -1,6 +1,6 @@
 SPECIFICATION Spec
 CONSTANTS
-  SdsWriters = {"DFSD", "SD", "NC"}
+  SdsWriters = {"DFSD", "DFSDS", "SD", "NC"}
   RasWriters = {"DFR8", "DF24", "GR"}
   Shapes <- ShapesB
   Types = {"i8", "u16", "i32", "f32", "f64", "c8", "li16", "lf64"}
